@@ -1,81 +1,3 @@
-/-
-  Props/C09.lean — Opened/Closed notifications mirror real transitions one-to-one (histories; the racing-transition
-  part under schedules is Conc/Trans).
--/
-import CircuitProofs.Props.CircuitCommon
-import CircuitProofs.Lemmas.CircuitB
-namespace CM.Props.C09
-open CM CM.SpecCircuit CM.Props
-
-/-- MAIN, over all histories and all logic: starting from a closed circuit, after ANY history of calls (any outcome),
-    OpenCircuit, CloseCircuit, override changes, clock steps and arbitrary outside interference with the logic's
-    state, the notifications delivered strictly alternate starting with Opened, and the underlying flag is true
-    exactly when the last notification was Opened. -/
-theorem notifications_alternate {σo σc : Type} (O : OpenerI σo) (C : CloserI σc) (c0 : Circ σo σc)
-    (h0 : c0.isOpen = false) (ops : List (CircOp σo σc)) :
-    let r := runOps O C c0 ops
-    alternates false (notifs r.2) = true ∧ r.1.isOpen = ((notifs r.2).getLast?).getD false := by
-  intro r
-  have h := runOps_alt O C c0 ops
-  rw [h0] at h
-  exact h
-
-/-- so when no override is in force IsOpen() is true exactly when the last notification was Opened -/
-theorem flag_tracks_last {σo σc : Type} (O : OpenerI σo) (C : CloserI σc) (c0 : Circ σo σc)
-    (h0 : c0.isOpen = false) (ops : List (CircOp σo σc)) :
-    let r := runOps O C c0 ops
-    r.1.cfg.forceOpen = false → r.1.cfg.forcedClosed = false →
-    isOpenEff r.1 = ((notifs r.2).getLast?).getD false := by
-  intro r h1 h2
-  have h := runOps_alt O C c0 ops
-  rw [h0] at h
-  rw [isOpenEff_of_no_override r.1 h1 h2]
-  exact h.2
-
-/-- calls that change nothing notify nobody -/
-theorem noop_open_silent {σo σc : Type} (O : OpenerI σo) (C : CloserI σc) (c : Circ σo σc)
-    (h : isOpenEff c = true ∨ c.cfg.forcedClosed = true) :
-    (manualOpen O C c).2.emits = [] ∧ (manualOpen O C c).1.isOpen = c.isOpen := by
-  rw [manualOpen_noop O C c h]
-  exact ⟨rfl, rfl⟩
-theorem noop_close_silent {σo σc : Type} (O : OpenerI σo) (C : CloserI σc) (c : Circ σo σc)
-    (h : isOpenEff c = false ∨ c.cfg.forceOpen = true) :
-    (manualClose O C c).2.emits = [] ∧ (manualClose O C c).1.isOpen = c.isOpen := by
-  rw [manualClose_noop O C c h]
-  exact ⟨rfl, rfl⟩
-
-/-- and the calls that do change something notify exactly once -/
-theorem effective_open_notifies_once {σo σc : Type} (O : OpenerI σo) (C : CloserI σc) (c : Circ σo σc)
-    (h1 : isOpenEff c = false) (h2 : c.cfg.forcedClosed = false) :
-    (manualOpen O C c).2.emits = [.opened c.clock] ∧ (manualOpen O C c).1.isOpen = true := by
-  exact manualOpen_effective O C c h1 h2
-theorem effective_close_notifies_once {σo σc : Type} (O : OpenerI σo) (C : CloserI σc) (c : Circ σo σc)
-    (h1 : isOpenEff c = true) (h2 : c.cfg.forceOpen = false) :
-    (manualClose O C c).2.emits = [.closed c.clock] ∧ (manualClose O C c).1.isOpen = false := by
-  exact manualClose_effective O C c h1 h2
-
-/-- per-call form used by the run-time monitor: one Execute passes the C09 verdict -/
-theorem c09_exec_holds {σo σc : Type} (O : OpenerI σo) (C : CloserI σc) (c : Circ σo σc) (op : ExecOp) :
-    let o := execObs O C c op
-    verdictC09 c.cfg (some c.isOpen) o.emits o.openAfter true = none := by
-  intro o
-  have h := (tr_execute O C c op.ctx op.run op.fb).from_empty
-  obtain ⟨hcfg, halt, hlast, -⟩ := h
-  have hem : o.emits = (execute O C c op.ctx op.run op.fb).2.1.emits := rfl
-  have hoa : o.openAfter = isOpenEff (execute O C c op.ctx op.run op.fb).1 := rfl
-  unfold verdictC09
-  simp only [verdictC09_alt_eq, Option.getD_some, hem, hoa, halt]
-  by_cases hno : c.cfg.forceOpen = false ∧ c.cfg.forcedClosed = false
-  · rw [isOpenEff_of_no_override _ (by rw [hcfg]; exact hno.1) (by rw [hcfg]; exact hno.2), hlast]
-    simp
-  · simp only [Bool.not_eq_true', bne_iff_ne, ne_eq]
-    have hn : ¬ (c.cfg.forceOpen = false ∧ c.cfg.forcedClosed = false ∧ c.cfg.disabled = false ∧
-        ¬ isOpenEff (execute O C c op.ctx op.run op.fb).1 =
-          ((notifs (execute O C c op.ctx op.run op.fb).2.1.emits).getLast?).getD c.isOpen) :=
-      fun hh => hno ⟨hh.1, hh.2.1⟩
-    simp [hn]
-
-example : (notifs (runOps openerI closerI ({ opener := .never, closer := .never } : Circ OState CState)
-    [.openC, .openC, .closeC, .closeC, .openC]).2) = [true, false, true] := by decide
-
-end CM.Props.C09
+/- Props/C09.lean — property C09: all theorems live in namespace CM.Props.C09, split over two files. -/
+import CircuitProofs.Props.C09Seq
+import CircuitProofs.Props.C09Conc
